@@ -80,8 +80,20 @@ FIXED = [
     ('C18', '5e75039', 'qset / Predicates: extend [0,1]; q[0:2]=[0,0] created duplicates'),
     ('C18', 'c1ba8ab', 'linqset: extend [0,1]; l[0:2]=[0,0] created duplicates'),
     ('C18', '9115501', 'Predicates: P=[(0,0,2),(1,0,1)]; P[0:2]=[(0,0,1),(0,0,2)] left two arities of one symbol'),
+    ('C02', '95f987f', 'NecessityDesignated-type rules starved nodes behind a never-applicable least-applied node (NodeCount.isleast): completed tableaux with box-type instances missing at an accessible world, e.g. S5L3 BELcNcTLa, ABacEbc |- MMc (undesignated MMc at w0 never yields Mc at accessible world 2); TK3WQ c, KaBMaLa, Aba |- NMEcc'),
 ]
 # genuine defects kept as findings (no small safe repair)
+# (k2) access rules stop at the world limit without emitting a quit flag
+F.append(dict(property='C02', key='C02:unsaturated:*:frame-*:world-limit-without-flag', status='known',
+    what='AccessNodeRule._get_targets (Reflexive / Symmetric / Transitive) releases its nodes when MaxWorlds is exceeded but, unlike the modal operator '
+         'rules, adds no quit flag: the branch is cut short by the world limit yet carries no limit flag, and its frame closure is incomplete, e.g. '
+         'TB3E UbEac, ELcLb |- KbUAcbAca (worlds 3 and 4 get no reflexive loop), S5K3W Abb, EMaMc |- Lc. Emitting the flag there (as '
+         'ModalOperatorRule._check_maxworlds does) breaks 41 pinned tests (test_invalid_nested_diamond_within_box1_auto etc.), so it is not repaired.'))
+# (k4) FDE family: the evaluator deviates from the rules on N/B conjunction / disjunction (see the C07 findings)
+F.append(dict(property='C02', key='C02:node-unsatisfied:*FDE:saturated', status='known',
+    what='FDE family: ValueFDE orders F<N<B<T and evaluates conjunction / disjunction by min / max, so N&B = N and NvB = B (C07 findings), while the '
+         'rules follow the documented tables; on a saturated open branch the library model then gives some compound node the wrong value, e.g. KFDE '
+         'b, CECabbKKbba |- BUAcbMcCCccc; S4FDE AUbca, Uab, Ubc |- CCbcEac (node value B on an undesignated node). Pinned by test_fde.py.'))
 # (n) K3WQ declares extension_of K3W, but its quantifiers are the generalised WEAK disjunction / conjunction
 for row in ('Existential:NT', 'Existential:FNT', 'Universal:FN', 'Universal:FNT'):
     F.append(dict(property='C11', key=f'C11:embeds:K3W->K3WQ:{row}', status='known',
